@@ -385,8 +385,8 @@ pub fn spec() -> PropertySpec {
         level: "exploration",
         rule: "Server level: max_conns 1-4, 2-3x as many simulated clients whose connections end in every listed way (normal close, handler 4xx/5xx, handler panic, dropped by the handler, malformed request, RST / FIN mid-head, abort mid-body, abort mid-upload, abort while the response is written, connect-and-close) in tape-chosen orders and overlaps with handlers held 'running' for tape-chosen spans; accept failures injected by the simulated listener (EMFILE bursts: the connection stays in the backlog; other errors: it is gone), each followed in the real code by a 500 ms virtual sleep; task cancellation. Per-step invariant: connections being serviced <= max_conns and handler invocations in flight <= max_conns. Conservation by quiescence: after the history, max_conns+1 fresh connections with held handlers - exactly max_conns must reach their handler, then all are served once handlers are released. API level: TokenSet/Token sequences of depth 8-12 over {async take (cancelled when it would block), timed take, drop i-th} against a counter model. distinct = schedule hash / op sequence.",
         scenarios: vec![
-            Scenario { name: "c12.server", property: "C12", func: server_level, runs_quick: 40_000, runs_thorough: 1_500_000, doc: "server level" },
-            Scenario { name: "c12.token_api", property: "C12", func: token_api, runs_quick: 60_000, runs_thorough: 1_000_000, doc: "slot pool API vs counter model" },
+            Scenario { name: "c12.server", property: "C12", func: server_level, runs_quick: 300_000, runs_thorough: 8_000_000, doc: "server level" },
+            Scenario { name: "c12.token_api", property: "C12", func: token_api, runs_quick: 300_000, runs_thorough: 5_000_000, doc: "slot pool API vs counter model" },
         ],
         required_probes: vec!["probe.limit_reached", "fault.accept_emfile", "fault.accept_aborted", "probe.accept_failed_then_probe_passed", "fault.client_rst", "job.panicked", "timer.sleep_for"],
         components: components_server(),
